@@ -566,9 +566,12 @@ class Bytecode:
         output = StringIO()
         if self.opc.version_tuple > (2, 0):
             cells = self._cell_names
-            line_starts = self._linestarts
         else:
             cells = None
+        # Code objects have a line table (co_lnotab) from Python 1.5 on.
+        if self.opc.version_tuple >= (1, 5):
+            line_starts = self._linestarts
+        else:
             line_starts = None
 
         first_line_number = co.co_firstlineno if hasattr(co, "co_firstlineno") else None
